@@ -1724,3 +1724,67 @@ def rule_sentinel_keys(F, rep, rid, floor=2):
             n += 1
             rep.fail(rid, '%s|%s' % (g.short, render(u)[:50]), g.where(u), '%s hands `%s` (which is "" for an index out of range) to `%s` without knowing the index in range: the entry whose key really is "" is found' % (g.short, render(c)[:40], u.get('fn')))
     rep.ok(rid, 'scan', None, 'answers of %d sentinel accessors (%s) are not used as keys outside a bound (fixture: 2 of 5 functions flagged, as expected)' % (len(sk), ', '.join(sorted(f_.short for f_ in sk.values()))))
+
+
+def whole_sequence_compares(g):
+    """`==` / `!=` whose operands are sequences (std::vector/list/deque) or hold one (a map or pair of them): order-sensitive comparisons."""
+    out = []
+    for c in g.walk():
+        if c.get('k') == 'Call' and c.get('opc') in ('==', '!=') and len(c.get('c', [])) == 2:
+            ts = [(a.get('t') or a.get('rt') or '') for a in c['c']]
+            if any(x in t_ for t_ in ts for x in ('std::vector<', 'std::list<', 'std::deque<')) and not any('iterator' in t_ for t_ in ts):
+                out.append(c)
+    return out
+
+
+def last_seen_dedup(f):
+    """Loops that decide "this group was handled already" by comparing a property of the current element with a scalar local that the guarded
+    branch then sets to that same property (a memory of the LAST group only): [(loop, assignment, comparison)]."""
+    out = []
+    for L in f.walk():
+        if L.get('k') not in ('RangeFor', 'For', 'While', 'Do'):
+            continue
+        body = role(L, 'body')
+        if body is None:
+            continue
+        for a in walk(body):
+            tgt = rhs = None
+            if a.get('k') == 'Bin' and a.get('op') == '=':
+                tgt, rhs = a['c'][0], a['c'][1]
+            elif a.get('k') == 'Call' and a.get('opc') == '=' and len(a.get('c', [])) == 2:
+                tgt, rhs = a['c'][0], a['c'][1]
+            if tgt is None or tgt.get('k') != 'Ref' or tgt.get('dk') != 'local':
+                continue
+            decl = [v for v in f.walk() if v.get('k') == 'Var' and v.get('d') == tgt['d']]
+            if not decl or any(x is decl[0] for x in walk(L)):
+                continue
+            rt = render(rhs)
+            if not any(x.get('k') == 'Call' for x in walk(rhs)) and not any(x.get('k') == 'Member' for x in walk(rhs)):
+                continue        # a plain counter / flag, not a property of the element
+            for cn, br, st in enclosing_conditions(f, a):
+                if not any(x is st for x in walk(body)):
+                    continue
+                for b in walk(cn):
+                    if (b.get('k') == 'Bin' and b.get('op') in ('!=', '==')) or (b.get('k') == 'Call' and b.get('opc') in ('!=', '==')):
+                        if len(b.get('c', [])) == 2 and {render(b['c'][0]), render(b['c'][1])} == {rt, render(tgt)}:
+                            out.append((L, a, b))
+    return out
+
+
+def rule_last_seen(F, rep, rid, pred, where_txt):
+    from facts import fixture_funcs
+    rep.rule(rid, 'a loop in %s that handles each GROUP of elements once (the equations of one NLA system, ...) remembers every group it has handled, not only the last one: a guard `group(element) != lastHandled` with `lastHandled = group(element)` in the guarded branch '
+                  'is right only if the members of a group are contiguous, which document order does not promise (A1 B1 A2 B2: both systems are emitted twice and the generated C does not compile)' % where_txt)
+    fx = fixture_funcs('loopstate')
+    if len(last_seen_dedup(fx['fixtureLastSeenBad'])) != 1 or last_seen_dedup(fx['fixtureLastSeenGood']):
+        raise AnalysisBroken('%s: the detector does not separate the two fixture functions (sa/fixtures/src/loopstate.cpp)' % rid)
+    n = 0
+    for g in F.funcs.values():
+        if not pred(g):
+            continue
+        n += 1
+        for L, a, b in last_seen_dedup(g):
+            rep.fail(rid, '%s|%s' % (g.short.split('::')[-1], render(b)[:50]), g.where(b), '%s decides whether a group was handled already by `%s` and then sets `%s`: only the last group is remembered' % (g.short, render(b)[:60], render(a)[:50]))
+    if n < 20:
+        raise AnalysisBroken('%s: only %d functions in scope' % (rid, n))
+    rep.ok(rid, 'scan', None, 'no last-group-only memory in the loops of %d functions of %s (fixture: 1 of 2 functions flagged, as expected)' % (n, where_txt))
